@@ -1,17 +1,26 @@
 """C09 - path strings round-trip: report -> extract / parse_path -> same location.
 
-proof:           coq/theories/Path/{PathModel,PathProofs*}.v, Properties/C09.v
+proof:           coq/theories/Path/*.v (PathModel / PathLex / PathProofs / PathTight: the printer and the parser
+                 automaton over the atoms of Base/Value.v; PathCacheModel / PathCacheProofs: the cache of
+                 DiffLevel.path and the lru_cache of _path_to_elements; PathActsModel / PathActsProofs:
+                 parse_path / stringify_path with all arguments; PathLit: a total model of ast.literal_eval and
+                 of float repr; PathXModel / PathXProofs: every float and int as a key), Properties/C09.v
 correspondence:  for each key sequence ks and an object holding a value at ks:
                  the path DeepDiff reports (text view), parse_path with key types,
                  _path_to_elements(root_element=None) with actions, extract,
                  stringify_path in both readings, the tree view's list-form path;
                  all compared with the model evaluated inside Coq.  Plus the
                  parser/extractor on arbitrary (hand-written, mutated, random)
-                 path strings, and extract over every position of random values.
+                 path strings (old and extended alphabet, every string compared with the extended parser),
+                 extract over every position of random values, traces of level.path(...) calls with
+                 every argument combination, traces of _path_to_elements calls through its lru_cache,
+                 parse_path / stringify_path with every argument shape, float / int keys of every
+                 notation, and ast.literal_eval itself on fuzzed texts.
 direct oracle:   the property statement on DeepDiff(obj1, obj2) where obj1/obj2
                  differ exactly at the location ks; and on diffs with 3-6 changed
                  children under one container: the list-form path of every leaf
-                 level (asked twice) and of every ancestor level.
+                 level (asked twice) and of every ancestor level; on every result of every call trace.
+All Coq evaluation of one run is batched (emit / flush) into as many parallel coqc runs as there are CPUs.
 """
 import copy
 import itertools
@@ -26,17 +35,35 @@ THEOREM_FILE = "Properties/C09.v"
 COQCHK = ["Properties.C09"]
 RULE = ("exhaustive: every string key of length <= 3 over the 23-character hostile alphabet (quick: all of length <= 2 and a seeded slice of length 3), "
         "as the only key and embedded in key sequences; random: key sequences of depth <= 4 mixing hostile strings (length <= 6), ints (negative too), "
-        "half-integer floats, None, True/False and list/tuple indexes, inside containers with sibling entries; diffs with 3-8 changed leaves under one "
-        "container at depth 0-2 (list-form path of every leaf level, asked twice, and of every ancestor level); default-mode diffs of edited scalar lists "
-        "planted under such key sequences (every reported entry, t1 and t2 side); a case is non-trivial when the sequence "
-        "is non-empty; distinct = distinct (key sequence, object)")
-TRUSTED = ["ast.literal_eval is modelled on the sub-language reachable from rendered paths (prefixed quoted strings, signed decimal ints / point floats "
-           "with underscores, None/True/False, Python's white-space rules); other inputs make the model answer 'unsupported' and are counted, not compared",
-           "ChildRelationship.stringify_param's repr/literal_eval_extended self-check, numpy / dataclass / custom-object keys and attribute (GETATTR) "
-           "rendering are not modelled; bytes dict keys (printed since /repo 0fac13b) are outside the property's quantifier: compared with the model, "
-           "their round-trip failures (repr with a backslash escape) are counted and not reported"]
-ASSUMPTIONS = ["keys are atoms of Base/Value.v: str (any code points), int, half-integer float with |x| < 2^52, None, bool; list/tuple indexes are naturals",
-               "the objects are tree shaped; Python ints are printed in full (no int_max_str_digits limit)"]
+        "half-integer floats, None, True/False and list/tuple indexes, inside containers with sibling entries (unchanged sibling containers being one "
+        "shared object in 40 % of the dicts); diffs with 3-8 changed leaves under one "
+        "container at depth 0-2 (list-form path of every leaf level, asked twice, and of every ancestor level; 1 in 7 with children shared between "
+        "heads); default-mode diffs of edited scalar lists "
+        "planted under such key sequences (every reported entry, t1 and t2 side); traces of 5-12 level.path(root, force, get_parent_too, use_t2, "
+        "output_format) calls and list rewrites on reported levels and their ancestors (all 24 argument combinations, 5 roots; a third of the multi-leaf "
+        "inputs with shared children); traces of 6-14 _path_to_elements calls (str with 4 root_element shapes, tuple / list objects, caller rewrites) "
+        "from an empty lru_cache; parse_path / stringify_path with every root_element / include_actions / quote_str / list-tuple / pairs shape, first "
+        "keys that could be taken for actions ('GET', 'xG', ...); float keys in every notation (exponent form, non half-integers, -0.0, subnormal, max, "
+        "inf, nan), ints up to 400 digits and at the 4300-digit limit; ast.literal_eval on structured / mutated / token-soup texts; "
+        "a case is non-trivial when the sequence is non-empty; distinct = distinct (key sequence, object) / trace / text")
+TRUSTED = ["ast.literal_eval is modelled TOTALLY (Path/PathLit.v: tokenizer, expression grammar, _convert, decimal -> binary64) and compared with CPython "
+           "on every generated text; the one unsupported corner - a token outside the vocabulary of literals in a text where _convert could raise "
+           "TypeError / OverflowError - is counted (model_unsupported) and not compared; the parser model consults the older hand model of the reachable "
+           "sub-language first (PathModel.literal_eval, without the 4300-digit limit: not consulted on such literals) - agreement of the two models "
+           "is part of the correspondence",
+           "float repr is modelled exactly (shortest digits that read back, Python's notation rules); the Coq theorems about float keys carry the "
+           "decidable guard float_text_ok (the repr text reads back as the same float), evaluated on every float key of every run",
+           "numpy / dataclass / custom-object / tuple keys are not modelled (tuple keys print as root[1][2]: outside the property's domain); "
+           "attribute (GETATTR) rendering is the Obj extension; bytes dict keys (printed since /repo 0fac13b) are outside the property's quantifier: "
+           "compared with the model, their round-trip failures (repr with a backslash escape) are counted and not reported; the self check of "
+           "stringify_param is modelled for every key type but bytes",
+           "object identities returned through the lru_cache and its hit / miss statistics are compared with the model but only recorded "
+           "(lru_calls:traces_whose_object_identities_and_cache_statistics_agree_with_the_model): a refactoring of the cache key is no violation"]
+ASSUMPTIONS = ["keys are atoms of Base/Value.v (str of any code points, int, half-integer float with |x| < 2^52, None, bool) in the theorems over "
+               "Path/PathModel.v, and pvals of Path/PathLit.v (every binary64 float, every int) in the theorems over Path/PathXModel.v; "
+               "list/tuple indexes are naturals",
+               "the objects are tree shaped in the models (the generators share unchanged / changed sub-containers); "
+               "sys.get_int_max_str_digits() is the default 4300 (PathXModel; the theorems over PathModel.v print ints in full)"]
 
 ESC = "\U0001d1c0"
 ALPHABET = ["'", '"', "[", "]", ".", "\\", " ", "\n", "\t", "é", ESC,
@@ -44,6 +71,51 @@ ALPHABET = ["'", '"', "[", "]", ".", "\\", " ", "\n", "\t", "é", ESC,
 assert len(ALPHABET) == 23
 
 HEADER = "From DD Require Import Base.PyStr Base.Value Path.PathModel Path.PathShow.\nLocal Open Scope N_scope."
+HEADER_ALL = ("From DD Require Import Base.PyStr Base.Value Path.PathModel Path.PathShow Path.PathCacheModel Path.PathCacheShow "
+              "Path.PathActsModel Path.PathActsShow Path.PathLit Path.PathLitShow Path.PathXModel Path.PathXShow.\nLocal Open Scope N_scope.")
+
+
+# The streams of one run hand their correspondence cases to one batch, evaluated at the end by as many
+# parallel coqc runs as there are CPUs (a stream alone has too few cases to keep them busy).
+def emit(ctx, name, header, cases, shard=250):
+    b = getattr(ctx, "_c09_batch", None)
+    if b is None:
+        ctx.coq_cases(name, header, cases, shard=shard, label=name)
+        return
+    ctx.count("corr_cases:" + name, len(cases))
+    b["cases"].extend((e, x, dict(t, stream=name) if isinstance(t, dict) else t) for e, x, t in cases)
+
+
+def emit_count(ctx, name, header, fn, items, chunk, key):
+    """ctx.count(key, number of items for which the Coq predicate behind `fn` holds)"""
+    b = getattr(ctx, "_c09_batch", None)
+    if b is None:
+        ctx.count(key, par_count(ctx, name, header, fn, items, chunk))
+    else:
+        b["counts"].append((name, fn, items, chunk, key))
+
+
+def flush(ctx):
+    from concurrent.futures import ThreadPoolExecutor
+    b = ctx._c09_batch
+    ctx._c09_batch = None
+    cases = b["cases"]
+    # interleave, so that the expensive cases of one stream do not end up in one shard
+    k = max(1, 2 * core.NCPU)
+    cases = [c for i in range(k) for c in cases[i::k]]
+    shard = max(25, -(-len(cases) // (3 * core.NCPU)))
+    ctx.ensure_built(HEADER_ALL)
+
+    def counts():
+        for name, fn, items, chunk, key in b["counts"]:
+            ctx.count(key, par_count(ctx, name, HEADER_ALL, fn, items, chunk))
+    with ThreadPoolExecutor(max_workers=2) as ex:
+        f1 = ex.submit(ctx.coq_cases, "batched", HEADER_ALL, cases, shard, 900, "batched(all streams)")
+        f2 = ex.submit(counts)
+        f1.result()
+        f2.result()
+
+
 
 
 # ---------------------------------------------------------------------------
@@ -150,11 +222,12 @@ def build(ks, leaf, sib_seed):
         if rng is not None:
             sibs = [q for q in rng.sample(SIB_KEYS, rng.randint(0, 3)) if not (q == a)]
         cut = rng.randint(0, len(sibs)) if rng is not None else 0
+        shared = [1] if (rng is not None and rng.random() < 0.4) else None      # one list object at several sibling keys
         for q in sibs[:cut]:
-            d[q] = rng.choice([0, "v", [1], None])
+            d[q] = rng.choice([0, "v", shared if shared is not None else [1], None])
         d[a] = child
         for q in sibs[cut:]:
-            d[q] = rng.choice([0, "v", [1], None])
+            d[q] = rng.choice([0, "v", shared if shared is not None else [1], None])
         return d
     return go(0)
 
@@ -362,15 +435,10 @@ def run_sequences(ctx, name, seqs):
         else:
             bad_paths.append(ks)
             cases.append(("c09_case_or %s %s (%s)" % (coq_path(ks), obj_coq, core.sx(exp)), exp, case_dict(ks, sib_seed)))
-    ctx.coq_cases(name, HEADER, cases, shard=250, label=name)
+    emit(ctx, name, HEADER, cases)
     if bad_paths:
-        n = 0
-        for i in range(0, len(bad_paths), 2000):
-            txt = ctx.coq_eval("%s_unsup_%d" % (name, i), HEADER + "\nLocal Open Scope string_scope.",
-                               "show_count (count_unsup_paths [%s])" % "; ".join(coq_path(k) for k in bad_paths[i:i + 2000]))
-            if txt is not None:
-                n += int(txt.split()[0])
-        ctx.count("%s:model_unsupported(not compared)" % name, n)
+        emit_count(ctx, "%s_unsup" % name, HEADER, "count_unsup_paths", [coq_path(k) for k in bad_paths], 400,
+                   "%s:model_unsupported(not compared)" % name)
 
 
 def exhaustive_single(ctx):
@@ -458,7 +526,7 @@ def parser_strings(ctx, n):
         strs.append("root" + "".join(rng.choice(PATH_CHARS) for _ in range(rng.randint(1, 8))))
     strs = list(dict.fromkeys(strs))
     obj_coq = values.to_coq(PARSE_OBJ)
-    cases = []
+    cases, xcases = [], []
     for p in strs:
         try:
             els = _path_to_elements(p, root_element=None)
@@ -477,11 +545,17 @@ def parser_strings(ctx, n):
         ctx.seen(("pstr", p), nontrivial=len(els) > 0)
         ctx.count("parser_strings:with_attr" if any(act != "GET" for _x, act in els) else "parser_strings:get_only")
         cases.append(("c09_parse_case_or %s %s (%s)" % (core.coq_pystr(p), obj_coq, core.sx(exp)), exp, {"path_string": p}))
-    ctx.coq_cases("parser_strings", HEADER, cases, shard=250, label="parser_strings")
-    txt = ctx.coq_eval("parser_unsup", HEADER + "\nLocal Open Scope string_scope.",
-                       "show_count (count_unsup_strs [%s])" % "; ".join(core.coq_pystr(p) for p in strs))
-    if txt is not None:
-        ctx.count("parser_strings:model_unsupported(not compared)", int(txt.split()[0]))
+        # the same string through the extended parser (total model of literal_eval): compared whenever the old one is not
+        xexp = ["ok", [[pv_canon(x), "G" if act == "GET" else "A"] for x, act in els], ["Some", sa]]
+        if any(isinstance(c[0], list) and c[0][0] == "o" for c in xexp[1]):
+            xexp[2] = None
+        xcases.append(("c09_xparse_or %s (%s)" % (core.coq_pystr(p), core.sx(xexp)), xexp, {"path_string": p}))
+    emit(ctx, "parser_strings", HEADER, cases)
+    emit(ctx, "parser_strings(extended parser)", HEADER_ALL, xcases)
+    emit_count(ctx, "parser_xunsup", HEADER_ALL, "count_xunsup", [core.coq_pystr(p) for p in strs], 200,
+               "parser_strings:extended_parser_unsupported(not compared)")
+    emit_count(ctx, "parser_unsup", HEADER, "count_unsup_strs", [core.coq_pystr(p) for p in strs], 200,
+               "parser_strings:model_unsupported(not compared)")
 
 
 # ---- extract over every position of random values ----------------------------
@@ -526,7 +600,7 @@ def extract_positions(ctx, n):
                 why = "extract(obj, %r) does not return the object at %r" % (p, list(pos))
                 ctx.fail({"keys": [key_json(k) for k in ks], "obj": repr(v), "path": p, "failure": why, "clause": "extract"}, why)
             cases.append(("c09_extract_case %s %s" % (vc, coq_path(ks)), [p, ex, ["Some", values.canon(cur)]], {"obj": repr(v), "pos": repr(pos)}))
-    ctx.coq_cases("extract_positions", HEADER, cases, shard=250, label="extract_positions")
+    emit(ctx, "extract_positions", HEADER, cases)
 
 
 # ---- several changed children under one container: list-form paths of every level ----
@@ -589,11 +663,13 @@ def typed_seq_eq(got, raw):
     return isinstance(got, list) and len(got) == len(raw) and all(typed_key_eq(x, y) for x, y in zip(got, raw))
 
 
-def observe_multi(locs):
-    """Returns (expected observable for c09_multi, failure text or None)."""
+def observe_multi(locs, shared=False):
+    """Returns (expected observable for c09_multi, failure text or None).  shared: children holding the same
+    sub-locations under different heads are ONE object (in t1, and one in t2)."""
     from deepdiff import DeepDiff, parse_path
     from deepdiff.path import stringify_path
-    obj1, obj2 = build_multi(locs, 1), build_multi(locs, 2)
+    bm = build_multi_shared if shared else build_multi
+    obj1, obj2 = bm(locs, 1), bm(locs, 2)
     raws = [[a for _t, a in l] for l in locs]
     strs = [stringify_path(r, root_element=("root", "GET")) for r in raws]
     if len(set(strs)) != len(strs):
@@ -648,17 +724,18 @@ def observe_multi(locs):
     return exp, why
 
 
-def _multi_task(locs):
+def _multi_task(args):
+    locs, shared = args
     logging.disable(logging.CRITICAL)
     try:
-        exp, why = observe_multi(locs)
+        exp, why = observe_multi(locs, shared)
     except Exception as e:
-        return (locs, None, "the path API raised %s: %s" % (type(e).__name__, e))
-    return (locs, exp, why)
+        return (locs, shared, None, "the path API raised %s: %s" % (type(e).__name__, e))
+    return (locs, shared, exp, why)
 
 
-def multi_case(locs, why=None):
-    d = {"locations": [[key_json(k) for k in l] for l in locs],
+def multi_case(locs, why=None, shared=False):
+    d = {"locations": [[key_json(k) for k in l] for l in locs], "shared_children": shared,
          "python": "levels of DeepDiff(build_multi(locs,1), build_multi(locs,2), ignore_private_variables=False, view='tree')['values_changed']; "
                    "locs = %r" % ([[a for _t, a in l] for l in locs],)}
     if why:
@@ -668,31 +745,34 @@ def multi_case(locs, why=None):
 
 def multi_leaf(ctx, pool, n):
     rng = ctx.rng
-    inputs = [gen_multi(rng, pool) for _ in range(n)]
+    inputs = [(gen_multi_shared(rng, pool), True) if i % 7 == 3 else (gen_multi(rng, pool), False) for i in range(n)]
     # fixed small ones: three siblings in a dict / in a list, at the root and two levels down
-    inputs += [[[("k", "a")], [("k", "b")], [("k", "c")]],
-               [[("x", 0)], [("x", 1)], [("x", 2)], [("x", 3)]],
-               [[("k", "a.b"), ("k", "it's"), ("x", 0), ("k", "x")], [("k", "a.b"), ("k", "it's"), ("x", 0), ("k", "y][")],
-                [("k", "a.b"), ("k", "it's"), ("x", 0), ("k", " z ")], [("k", "a.b"), ("k", "it's"), ("x", 0), ("k", 1.5)]]]
+    inputs += [([[("k", "a")], [("k", "b")], [("k", "c")]], False),
+               ([[("x", 0)], [("x", 1)], [("x", 2)], [("x", 3)]], False),
+               ([[("k", "a.b"), ("k", "it's"), ("x", 0), ("k", "x")], [("k", "a.b"), ("k", "it's"), ("x", 0), ("k", "y][")],
+                 [("k", "a.b"), ("k", "it's"), ("x", 0), ("k", " z ")], [("k", "a.b"), ("k", "it's"), ("x", 0), ("k", 1.5)]], False),
+               ([[("k", "p"), ("k", "x")], [("k", "p"), ("k", "y")], [("k", "q"), ("k", "x")], [("k", "q"), ("k", "y")]], True)]
     with mp.get_context("fork").Pool(core.NCPU) as pool_:
         res = pool_.map(_multi_task, inputs, chunksize=16)
     cases = []
-    for locs, exp, why in res:
+    for locs, shared, exp, why in res:
         if exp is None and why is None:
             ctx.count("multi_leaf:skipped(locations print alike)")
             continue
-        ctx.seen(("multi", repr(locs)), nontrivial=True)
+        ctx.seen(("multi", repr(locs), shared), nontrivial=True)
         ctx.count("multi_leaf:%d_locations" % len(locs))
+        if shared:
+            ctx.count("multi_leaf:inputs_with_children_shared_between_heads")
         cp = 0
         while all(len(l) > cp for l in locs) and all(l[cp] == locs[0][cp] for l in locs):
             cp += 1
         ctx.count("multi_leaf:container_%s_at_depth_%d" % ("list" if locs[0][cp][0] == "x" else "dict", cp))
         if why:
-            ctx.fail(multi_case(locs, why), why)
+            ctx.fail(multi_case(locs, why, shared), why)
         if exp is not None:
-            cases.append(("c09_multi [%s]" % "; ".join(coq_path(l) for l in locs), exp, multi_case(locs)))
-    ctx.sample({"multi_leaf_locations": [[a for _t, a in l] for l in inputs[0]]})
-    ctx.coq_cases("multi_leaf", HEADER, cases, shard=100, label="multi_leaf")
+            cases.append(("c09_multi [%s]" % "; ".join(coq_path(l) for l in locs), exp, multi_case(locs, shared=shared)))
+    ctx.sample({"multi_leaf_locations": [[a for _t, a in l] for l in inputs[0][0]]})
+    emit(ctx, "multi_leaf", HEADER, cases, shard=100)
 
 
 # ---- heavily edited scalar lists in default alignment mode: every reported entry ----
@@ -809,7 +889,7 @@ def list_edits(ctx, pool, n):
         for expr, exp in cs:
             cases.append((expr, exp, list_case(prefix, a, b, sib_seed)))
     ctx.sample({"list_edit": {"prefix": [x for _t, x in inputs[1][0]], "a": inputs[1][1], "b": inputs[1][2]}})
-    ctx.coq_cases("list_edits", HEADER, cases, shard=250, label="list_edits")
+    emit(ctx, "list_edits", HEADER, cases)
 
 
 # ---- DiffLevel.path: every argument combination, in any order, on one level -------------
@@ -1124,7 +1204,7 @@ def path_calls(ctx, pool, n):
         for expr, obs in cs:
             ctx.count("path_calls:calls", sum(1 for o in obs if o != "-"))
             cases.append((expr, obs, pc_case(kind, inp, seed)))
-    ctx.coq_cases("path_calls", HEADER2, cases, shard=150, label="path_calls")
+    emit(ctx, "path_calls", HEADER2, cases, shard=150)
 
 
 # ---- _path_to_elements: traces of calls through the lru_cache ------------------------------
@@ -1327,11 +1407,11 @@ def lru_calls(ctx, n):
             opsc = "[%s]" % "; ".join(coq_lop(o) for o in ops)
             cases.append(("c09_lru_content_or %s (%s)" % (opsc, core.sx(content)), content, lru_case(ops)))
             fulls.append("(%s, %s)" % (opsc, core.sx(full)))
-    ctx.coq_cases("lru_calls", HEADER2, cases, shard=150, label="lru_calls")
+    emit(ctx, "lru_calls", HEADER2, cases, shard=150)
     # object identities (which calls return the very same tuple) and the cache statistics (hits, misses,
     # currsize) are not part of what the property demands: agreement with the model is recorded, not required
-    agree = par_count(ctx, "lru_full", HEADER2, "count_lru_full_agree", fulls, 40)
-    ctx.count("lru_calls:traces_whose_object_identities_and_cache_statistics_agree_with_the_model", agree)
+    emit_count(ctx, "lru_full", HEADER2, "count_lru_full_agree", fulls, 40,
+               "lru_calls:traces_whose_object_identities_and_cache_statistics_agree_with_the_model")
 
 
 # ---- parse_path / stringify_path with every argument shape ---------------------------------
@@ -1462,7 +1542,7 @@ def api_shapes(ctx, pool, n):
             ctx.fail(shape_case(ks, seed, clause, why), why)
         for expr, exp in cs:
             cases.append((expr, exp, shape_case(ks, seed)))
-    ctx.coq_cases("api_shapes", HEADER3, cases, shard=300, label="api_shapes")
+    emit(ctx, "api_shapes", HEADER3, cases, shard=300)
 
 
 def par_count(ctx, name, header, fn, items, chunk):
@@ -1726,7 +1806,7 @@ def exotic_keys(ctx, pool, n):
             # with the decidable guard of the Coq theorems (float_text_ok ...): it must hold of every finite float
             cases.append(("c09_xcase_g [%s]" % "; ".join(coq_xkey(k) for k in ks), [ok, exp], xcase_dict(ks)))
             ctx.count("exotic_keys:key_sequences_meeting_the_coq_guard", 1 if ok else 0)
-    ctx.coq_cases("exotic_keys", HEADER4, cases, shard=30, label="exotic_keys")
+    emit(ctx, "exotic_keys", HEADER4, cases, shard=30)
 
 
 # ---- literal_eval and the parser on every text -----------------------------------------------------
@@ -1840,10 +1920,10 @@ def literal_texts(ctx, n):
             cases2.append(("c09_lit_agree %s" % core.coq_pystr(t), "agree", {"literal_text": t, "note": "PathModel.literal_eval against PathLit.full_eval"}))
     ctx.count("literal_texts:texts", len(texts))
     ctx.count("literal_texts:accepted_by_literal_eval", nok)
-    ctx.coq_cases("literal_texts", HEADER4, cases, shard=200, label="literal_texts")
-    ctx.coq_cases("literal_models_agree", HEADER4, cases2, shard=400, label="literal_models_agree")
-    ctx.count("literal_texts:model_unsupported(not compared)",
-              par_count(ctx, "lit_unsup", HEADER4, "count_lit_unsup", [core.coq_pystr(t) for t in texts], 120))
+    emit(ctx, "literal_texts", HEADER4, cases, shard=200)
+    emit(ctx, "literal_models_agree", HEADER4, cases2, shard=400)
+    emit_count(ctx, "lit_unsup", HEADER4, "count_lit_unsup", [core.coq_pystr(t) for t in texts], 120,
+               "literal_texts:model_unsupported(not compared)")
 
 
 XPATH_CHARS = PATH_CHARS + ["e", "E", "j", "x", "(", ")", ",", "#", "{", "}", ":", "+", "2", "9", "\r", "\f", "1e5", "0x1", "1.5", "()", "set()", "..."]
@@ -1855,11 +1935,19 @@ def parser_strings_x(ctx, n):
     rng = ctx.rng
     strs = list(HAND) + ["root[1e5]", "root[1e+16]", "root[-0.0]", "root[1e999]", "root[0x10]", "root[1j]", "root[(1, 2)]", "root[1, 2]", "root[{1}]",
                          "root[{[1]}]", "root[...]", "root[1 #'\n]", "root[(1, #'\n2) #']", "root[set()]", "root.1e5", "root[1e5].a[0b1]", "root[[1, 2]]",
-                         "root[1e-05][2.5e-07]['a']", "root[{[1]: 2}]x", "root[00]", "root['a' 'b']", "root[\"a\" 'b']"]
+                         "root[1e-05][2.5e-07]['a']", "root[{[1]: 2}]x", "root[00]", "root['a' 'b']", "root[\"a\" 'b']",
+                         # a "]" reaches literal_eval only inside what the automaton takes for a quoted part: after #'
+                         "root[{[1, #'\n2]}", "root[{[1 #'\n]:2}", "root[{(1,[2 #'\n])}", "root[(1, #'\n2)", "root[[1, #'\n2]",
+                         "root[1" + "0" * 310 + "+1j", "root[1" + "0" * 310 + "+1j]", "root[{[1, #\"\n2]}", "root[{1: [2 #'\n]}"]
     for _ in range(n):
         strs.append("root" + "".join(rng.choice(XPATH_CHARS) for _ in range(rng.randint(1, 9))))
     for _ in range(n // 3):
         strs.append("root[" + gen_lit_text(rng) + "]" + rng.choice(["", "", "['a']", ".b", "[0]"]))
+    for _ in range(n // 6):
+        t = gen_lit_text(rng)
+        i = t.find("]")
+        if i > 0 and "'" not in t[:i]:
+            strs.append("root[" + t[:i] + "#'\n" + t[i:])          # the element ends with the string, inside "quotes"
     strs = list(dict.fromkeys(strs))
     cases = []
     for p in strs:
@@ -1881,9 +1969,9 @@ def parser_strings_x(ctx, n):
             continue
         ctx.seen(("xpstr", p), nontrivial=True)
         cases.append(("c09_xparse_or %s (%s)" % (core.coq_pystr(p), core.sx(exp)), exp, {"path_string": p}))
-    ctx.coq_cases("parser_strings_x", HEADER4, cases, shard=200, label="parser_strings_x")
-    n_unsup = par_count(ctx, "xparser_unsup", HEADER4, "count_xunsup", [core.coq_pystr(p) for p in strs], 150)
-    ctx.count("parser_strings_x:model_unsupported(not compared)", n_unsup)
+    emit(ctx, "parser_strings_x", HEADER4, cases, shard=200)
+    emit_count(ctx, "xparser_unsup", HEADER4, "count_xunsup", [core.coq_pystr(p) for p in strs], 150,
+               "parser_strings_x:model_unsupported(not compared)")
 
 
 # ---- refuted witnesses still fail on the implementation -----------------------
@@ -1906,6 +1994,8 @@ def run(ctx):
     only = os.environ.get("C09_ONLY", "") if getattr(ctx, "no_proof", False) else ""
     only = set(only.split(",")) if only else None
 
+    ctx._c09_batch = {"cases": [], "counts": []}
+
     def on(name):
         if os.environ.get("C09_TIMING"):
             print("timing: %6.1fs before %s" % (ctx.elapsed(), name), file=sys.stderr)
@@ -1924,21 +2014,24 @@ def run(ctx):
     if on("list_edits"):
         list_edits(ctx, pool, 2500 if ctx.thorough else 400)
     if on("path_calls"):
-        path_calls(ctx, pool, 1200 if ctx.thorough else 110)
+        path_calls(ctx, pool, 2000 if ctx.thorough else 110)
     if on("lru_calls"):
-        lru_calls(ctx, 1500 if ctx.thorough else 150)
+        lru_calls(ctx, 2000 if ctx.thorough else 150)
     if on("api_shapes"):
-        api_shapes(ctx, pool, 1500 if ctx.thorough else 130)
+        api_shapes(ctx, pool, 1200 if ctx.thorough else 130)
     if on("exotic_keys"):
-        exotic_keys(ctx, pool, 900 if ctx.thorough else 130)
+        exotic_keys(ctx, pool, 1500 if ctx.thorough else 130)
     if on("literal_texts"):
-        literal_texts(ctx, 6000 if ctx.thorough else 450)
+        literal_texts(ctx, 8000 if ctx.thorough else 450)
     if on("parser_strings_x"):
-        parser_strings_x(ctx, 3000 if ctx.thorough else 400)
+        parser_strings_x(ctx, 5000 if ctx.thorough else 400)
     if on("parser_strings"):
         parser_strings(ctx, 3000 if ctx.thorough else 600)
     if on("extract_positions"):
         extract_positions(ctx, 400 if ctx.thorough else 80)
+    on("flush")
+    flush(ctx)
+    on("end")
     if only is not None:
         return
 
@@ -1952,7 +2045,7 @@ def run(ctx):
 def replay(ctx, data):
     logging.disable(logging.CRITICAL)
     case = data.get("case", {})
-    if "keys" in case and "obj" not in case:
+    if "keys" in case and "obj" not in case and not any(k in case for k in ("path_calls", "api_shapes", "xkeys", "lru_trace")):
         ks = [key_unjson(j) for j in case["keys"]]
         exp, whys, obj1 = observe(ks, case.get("sib_seed"))
         ctx.seen(("replay", repr(ks)), nontrivial=True)
@@ -2015,11 +2108,11 @@ def replay(ctx, data):
         ctx.coq_cases("replay", HEADER, [("c09_extract_case %s %s" % (values.to_coq(o), coq_path(ks)), exp, case) for o, ks, exp in cs])
     elif "locations" in case:
         locs = [[key_unjson(j) for j in l] for l in case["locations"]]
-        exp, why = observe_multi(locs)
+        exp, why = observe_multi(locs, bool(case.get("shared_children")))
         ctx.seen(("replay", repr(locs)), nontrivial=True)
         print("replay: locations=%r observed=%r failure=%r" % ([[a for _t, a in l] for l in locs], exp, why))
         if why:
-            ctx.fail(multi_case(locs, why), why)
+            ctx.fail(multi_case(locs, why, bool(case.get("shared_children"))), why)
         if exp is not None:
             ctx.coq_cases("replay", HEADER, [("c09_multi [%s]" % "; ".join(coq_path(l) for l in locs), exp, case)])
     elif "obj" in case and "keys" in case:
